@@ -798,12 +798,24 @@ func checkProperty(prop, tier string, seed uint64, runs, budget, workers int, re
 					cmd := exec.Command(bi.Worker, "run", "--prop", prop, "--seed", fmt.Sprint(seed), "--tier", tier,
 						"--from", fmt.Sprint(i), "--step", "1", "--count", "1", "--cold", "--tmp", wtmp)
 					cmd.Env = append(os.Environ(), workerEnv(wtmp, true)...)
-					var stderr bytes.Buffer
-					cmd.Stderr = &stderr
-					out, err := cmd.Output()
+					var stderr, stdout bytes.Buffer
+					cmd.Stderr, cmd.Stdout = &stderr, &stdout
+					var err error
+					exceeded := false
+					if err = cmd.Start(); err == nil {
+						// the same liveness bound as everywhere: a case that blocks or spins is stopped, executed again alone and judged there
+						if exceeded = waitBounded(cmd, hangLimit); !exceeded {
+							if ps := cmd.ProcessState; ps != nil && !ps.Success() {
+								err = fmt.Errorf("exit status %d", ps.ExitCode())
+							}
+						}
+					}
+					out := stdout.Bytes()
 					os.RemoveAll(wtmp)
 					mu.Lock()
-					if err != nil {
+					if exceeded {
+						hung = append(hung, i)
+					} else if err != nil {
 						crashed = append(crashed, fmt.Sprintf("cold run %d: %v\n%s", i, err, tail(stderr.String(), 20)))
 					}
 					for _, ln := range bytes.Split(out, []byte("\n")) {
